@@ -284,7 +284,10 @@ Definition overrun_step (tr : trace) (s : ostate) (e : N * ev) : ostate :=
    order reliably, so scenarios with handler deadlines are left to the other monitors *)
 Definition mon_overrun (c : cfg) (tr : trace) : list failure :=
   if c_raws c || negb (expect_fc c) then []
-  else if existsb (fun e => match snd e with HStart _ _ _ (Some _) _ _ _ => true | _ => false end) tr then []
+  else if existsb (fun e => match snd e with
+                            | HStart _ _ _ (Some d) _ _ _ => (d <? 1000000000)%Z   (* can expire although the clock stands still *)
+                            | Stim StAdvance _ _ _ => true                          (* the clock is moved *)
+                            | _ => false end) tr then []
   else let tr := tunnel0 tr in os_fails (fold_left (overrun_step tr) tr (mkOs [] [] [] false)).
 
 (* ---------- the pipeline model (Pipe.v) in lock step with each flow-controlled stream ----------
